@@ -53,3 +53,24 @@ Theorem C18_parse : forall before ext after len,
   ext = [] -> tokenize (before ++ ext ++ after) len = tokenize (before ++ after) len.
 Proof. exact empty_finder_changes_nothing. Qed.
 Print Assumptions C18_parse.
+
+(* ... and the extension tokens do find nothing on a text that does not use the extension: every match of
+   Math.pattern consumes a '$', every match of GithubWiki.pattern a '[', a '|' and a ']' (the `needs` analysis of
+   the regex engine, sound for every pattern, evaluated on the patterns regenerated from /repo) *)
+From Mistletoe Require Import Re.ReMatch Gen.GenRegex Proofs.ReNeeds.
+Local Open Scope Z_scope.
+
+Theorem C18_math_needs_dollar : forall s, mem 36 s = false ->
+  finditer fl_latex_token_Math_pattern re_latex_token_Math_pattern s = [].
+Proof. intros s H. apply (finditer_none _ _ 36 s); [vm_compute; reflexivity|exact H]. Qed.
+Print Assumptions C18_math_needs_dollar.
+
+Theorem C18_wiki_needs_brackets_and_bar : forall s, mem 91 s && mem 124 s && mem 93 s = false ->
+  finditer fl_github_wiki_GithubWiki_pattern re_github_wiki_GithubWiki_pattern s = [].
+Proof.
+  intros s H. apply andb_false_iff in H as [H|H]; [apply andb_false_iff in H as [H|H]|].
+  - apply (finditer_none _ _ 91 s); [vm_compute; reflexivity|exact H].
+  - apply (finditer_none _ _ 124 s); [vm_compute; reflexivity|exact H].
+  - apply (finditer_none _ _ 93 s); [vm_compute; reflexivity|exact H].
+Qed.
+Print Assumptions C18_wiki_needs_brackets_and_bar.
